@@ -430,6 +430,15 @@ Theorem C10_wrapper_error_is_the_attempts_error : forall s e,
 Proof. exact wrapper_error_is_the_attempts_error. Qed.
 Print Assumptions C10_wrapper_error_is_the_attempts_error.
 
+(* the source is as the model takes it: Request.do asks r.Context() afresh for the stop decision
+   and the wait of every attempt (the [cancelled] flag of an outcome is about the request's
+   CURRENT context, also one installed by a middleware or a hook after Do started), and
+   SetBodyBytes' GetBody hands every attempt a reader of its own ([GBStatic]: a body upload still
+   running when the next attempt starts cannot disturb it) - both read off the source by gosync *)
+Theorem C10_context_and_body_as_modelled : ctx_read_per_attempt = true /\ getbody_fresh_reader = true.
+Proof. exact context_and_body_as_modelled. Qed.
+Print Assumptions C10_context_and_body_as_modelled.
+
 (* ---------- several requests of one client ---------- *)
 
 (* the storage of conditions / hooks (Model/RetrySlices.v: backing arrays, len, cap; append in
